@@ -88,7 +88,12 @@ func (e *engine) loadProgram(pkgDirs []string) error {
 			e.overlay[virt] = []byte(src)
 			gen := filepath.Join(e.harnessDir, ".gen", filepath.Base(d), base)
 			os.MkdirAll(filepath.Dir(gen), 0o755)
-			os.WriteFile(gen, []byte(src), 0o644)
+			// written atomically: several checks may run at once from one /verif
+			if old, err := os.ReadFile(gen); err != nil || string(old) != src {
+				tmp := fmt.Sprintf("%s.%d.tmp", gen, os.Getpid())
+				os.WriteFile(tmp, []byte(src), 0o644)
+				os.Rename(tmp, gen)
+			}
 			e.overlayFiles[virt] = gen
 		}
 		patterns = append(patterns, "./"+d)
